@@ -34,6 +34,12 @@ sys.path.insert(0, ROOT)
 from props_config import PROPS, TRUSTED_BASE_COMMON  # noqa: E402
 
 ALLOWED_AXIOMS = {"propext", "Classical.choice", "Quot.sound"}
+# The one declared exception (DESIGN 10.9): the bit-vector lemmas of M-STEAL are discharged by `bv_decide` in ONE
+# file; the native axioms it introduces are accepted for exactly the two C04 theorems that rest on them.
+BV_MODULE = "NexoVerif.Lemmas.StealBV"
+BV_THEOREMS = {"NexoVerif.Steal.find_bit_returns_the_set_bit_of_the_requested_rank",
+               "NexoVerif.Steal.first_steal_candidate_is_a_candidate"}
+BV_AXIOM = re.compile(r"^NexoVerif\.Steal\.(findBit_spec|popCount_eq|popCount_ne_zero|popCount_le)\._native\.bv_decide\.ax_\d+_\d+$")
 FORBIDDEN = re.compile(r"\b(sorry|admit|native_decide|bv_decide|implemented_by|unsafe)\b|^\s*axiom\s|maxHeartbeats\s+0")
 
 
@@ -131,6 +137,8 @@ def build_proofs(pid, cfg, tier):
     for m, p in lean_files_of([props_mod]):
         src = strip_comments(open(p).read())
         for ln, line in enumerate(src.splitlines(), 1):
+            if m == BV_MODULE:
+                line = re.sub(r"\bbv_decide\b", "", line)
             if FORBIDDEN.search(line):
                 res["forbidden"].append(f"{m}:{ln}: {line.strip()}")
     with Lock("lake"):
@@ -183,7 +191,10 @@ def build_proofs(pid, cfg, tier):
             continue
         ax = [a.strip() for a in (m.group(2) or "").split(",") if a.strip()]
         res["axioms"][n] = ax
-        if not set(ax) <= ALLOWED_AXIOMS:
+        extra = set(ax) - ALLOWED_AXIOMS
+        if n in BV_THEOREMS:
+            extra = {a for a in extra if not BV_AXIOM.match(a)}
+        if extra:
             bad.append(n)
     if res["forbidden"]:
         bad = names
